@@ -386,4 +386,6 @@ def check_C10(tier, seed):
     metamorphic_real_schedulers(rep, bhvs[: (150 if tier == "quick" else 3000)], seed)
     for b in bhvs[:2]:
         rep.sample(b)
+    from .hashseed import cross_hashseed
+    cross_hashseed(rep, "C10", "acnsim", seed, 40 if tier == "quick" else 800)
     return rep.finish()
